@@ -175,6 +175,14 @@ class Interp:
                     g[tn] = s.P.GlobalDict(modkey + '.' + tn)
                 elif isinstance(a.value, ast.Constant):
                     g[tn] = a.value.value
+                else:
+                    # immutable module-level constants (tuples / frozen tables of literals): evaluated as python literals
+                    try:
+                        v = ast.literal_eval(a.value)
+                    except Exception:
+                        continue
+                    if isinstance(v, (tuple, str, int, float, frozenset)) or v is None:
+                        g[tn] = v
         return g
 
     def resolve_module(s, name, aliased):
@@ -223,6 +231,17 @@ class Interp:
         import builtins as _b
         if hasattr(_b, name):
             raise Unsupported('python builtin %s is not modelled' % name)
+        # a name the current function assigns somewhere but not on this path is python's UnboundLocalError; anything else
+        # is a global the front end could not evaluate: no verdict rather than a claimed exception
+        if s.cur_fn:
+            try:
+                fn = front.func(*s.cur_fn[-1])
+                stored = {q.id for q in ast.walk(fn) if isinstance(q, ast.Name) and isinstance(q.ctx, ast.Store)} | \
+                         {q.name for q in ast.walk(fn) if isinstance(q, ast.FunctionDef)}
+            except Exception:
+                stored = None
+            if stored is not None and name not in stored:
+                raise Unsupported("global name '%s' is not known to the executor" % name)
         raise Raised('UnboundLocalError', "name '%s' is not bound on this path" % name)
 
     # ---------------------------------------------------------------- expressions
@@ -522,16 +541,45 @@ class Interp:
         return slice(g(n.lower), g(n.upper), g(n.step))
 
     def e_ListComp(s, n, env):
-        return list(s.comp(n, env))
+        r = s.comp(n, env)
+        return r if isinstance(r, PList) else list(r)
 
     def e_GeneratorExp(s, n, env):
-        return list(s.comp(n, env))
+        r = s.comp(n, env)
+        return r if isinstance(r, PList) else list(r)
+
+    def e_DictComp(s, n, env):
+        if len(n.generators) != 1:
+            raise Unsupported('nested comprehension')
+        g = n.generators[0]
+        it = s.ev(g.iter, env)
+        if isinstance(it, dict):
+            it = list(it)
+        if not isinstance(it, (list, tuple, range)):
+            raise Unsupported('comprehension over non-concrete iterable')
+        out = {}
+        for v in it:
+            e2 = dict(env)
+            s.assign(g.target, v, e2)
+            if all(s.truth(s.ev(c, e2)) for c in g.ifs):
+                out[s.ev(n.key, e2)] = s.ev(n.value, e2)
+        return out
 
     def comp(s, n, env):
         if len(n.generators) != 1:
             raise Unsupported('nested comprehension')
         g = n.generators[0]
         it = s.ev(g.iter, env)
+        if isinstance(it, s.P.SymRange) and not g.ifs and isinstance(g.target, ast.Name):
+            # [e for _ in range(n)] with symbolic n and e independent of the loop variable: the periodic list [e] * n
+            used = {q.id for q in ast.walk(n.elt) if isinstance(q, ast.Name)}
+            if g.target.id not in used:
+                cnt = simp(I(it.hi) - I(it.lo))
+                if CUR.ctx.decide(I(cnt) >= 1):
+                    return PList([s.ev(n.elt, env)], cnt)
+                return []
+        if isinstance(it, dict):
+            it = list(it)
         if not isinstance(it, (list, tuple, range)):
             raise Unsupported('comprehension over non-concrete iterable')
         out = []
